@@ -45,6 +45,18 @@ def parseOp (s : String) : Option Dns.Op :=
 def parseOps (s : String) : Option (List (List Dns.Op)) :=
   (s.splitOn ";").mapM (fun g => if g == "" then some [] else (g.splitOn ",").mapM parseOp)
 
+/-- `~a` = `DNSCache.DialContext("a:443")` with every connection refused: a CLIENT of the cache made of the modelled
+    operations — `lookup a`; after a cache hit (all cached addresses failed) `delete a` and `lookup a` once more; then the
+    dial fails.  It is replayed on the lookup / delete model (so every theorem about all op lists and schedules covers
+    it); the flag marks the source op. -/
+def parseOpD (s : String) : Option (Dns.Op × Bool) :=
+  match s.toList with
+  | ['~', c] => some (.lookup (String.singleton c) 0, true)
+  | _ => (parseOp s).map (fun o => (o, false))
+
+def parseOpsD (s : String) : Option (List (List (Dns.Op × Bool))) :=
+  (s.splitOn ";").mapM (fun g => if g == "" then some [] else (g.splitOn ",").mapM parseOpD)
+
 def showAddrs (a : List Nat) : String := String.intercalate "+" (a.map toString)
 
 def showObs : Dns.Obs → String
@@ -72,22 +84,52 @@ def regimeOf : String → Option Regime
   | "s" => some ⟨1000, 1, 1500⟩
   | _ => none
 
-def dnsReplay (c : Dns.Cfg) (rg : Regime) : List Char → Dns.State → Int → List String → List String
-  | [], _, _, acc => acc.reverse
-  | ch :: rest, s, t, acc =>
+/-- prepend ops to thread `g`'s to-do list -/
+def injectOps (s : Dns.State) (g : Nat) (ops : List Dns.Op) : Dns.State :=
+  match s.threads[g]? with
+  | some th => { s with threads := s.threads.set g { th with todo := ops ++ th.todo } }
+  | none => s
+
+structure ReplaySt where
+  idx : List Nat      -- per goroutine: index of its current source op
+  retry : List Bool   -- per goroutine: inside the second lookup of a dial
+
+def dnsReplay (c : Dns.Cfg) (rg : Regime) (dials : List (List Bool)) : List Char → Dns.State → Int → ReplaySt → List String → List String
+  | [], _, _, _, acc => acc.reverse
+  | ch :: rest, s, t, rs, acc =>
     if ch == 'z' then
-      dnsReplay c rg rest s (t + rg.sleep) (("Z" ++ showKeys s) :: acc)
+      dnsReplay c rg dials rest s (t + rg.sleep) rs (("Z" ++ showKeys s) :: acc)
     else
       let g := ch.toNat - 'p'.toNat
       let t' := t + rg.tick
       let (s', o) := Dns.poke c 64 s g t'
+      let i := (rs.idx[g]?).getD 0
+      let isDial := (((dials[g]?).bind (·[i]?)).getD false)
+      let adv (r : ReplaySt) : ReplaySt := ⟨r.idx.set g (i + 1), r.retry.set g false⟩
       match o with
       | .hang _ => (showObs o :: acc).reverse
-      | _ => dnsReplay c rg rest s' t' ((showObs o ++ showKeys s') :: acc)
+      | .ret _ (.hit n _) =>
+        if isDial && !((rs.retry[g]?).getD false) then
+          -- every cached address refused the connection: delete the entry and look the name up once more (same move)
+          let s1 := injectOps s' g [.del n, .lookup n 0]
+          let (s2, _) := Dns.poke c 64 s1 g t'
+          let (s3, o3) := Dns.poke c 64 s2 g t'
+          dnsReplay c rg dials rest s3 t' ⟨rs.idx, rs.retry.set g true⟩ ((showObs o3 ++ showKeys s3) :: acc)
+        else dnsReplay c rg dials rest s' t' (adv rs) ((showObs o ++ showKeys s') :: acc)
+      | .ret _ (.miss n _) =>
+        if isDial then dnsReplay c rg dials rest s' t' (adv rs) ((s!"X{g}:{n}" ++ showKeys s') :: acc)
+        else dnsReplay c rg dials rest s' t' (adv rs) ((showObs o ++ showKeys s') :: acc)
+      | .ret _ (.fail n) =>
+        if isDial then dnsReplay c rg dials rest s' t' (adv rs) ((s!"X{g}:{n}" ++ showKeys s') :: acc)
+        else dnsReplay c rg dials rest s' t' (adv rs) ((showObs o ++ showKeys s') :: acc)
+      | .ret _ _ => dnsReplay c rg dials rest s' t' (adv rs) ((showObs o ++ showKeys s') :: acc)
+      | _ => dnsReplay c rg dials rest s' t' rs ((showObs o ++ showKeys s') :: acc)
 
-def dnsModel (cap : Int) (rg : Regime) (todos : List (List Dns.Op)) (sched : String) : String :=
+def dnsModel (cap : Int) (rg : Regime) (todosD : List (List (Dns.Op × Bool))) (sched : String) : String :=
   let c : Dns.Cfg := ⟨cap, rg.dur, dnsResolver⟩
-  String.intercalate "|" (dnsReplay c rg sched.toList (Dns.init todos 0) 0 [])
+  let todos := todosD.map (·.map (·.1))
+  let dials := todosD.map (·.map (·.2))
+  String.intercalate "|" (dnsReplay c rg dials sched.toList (Dns.init todos 0) 0 ⟨todos.map (fun _ => 0), todos.map (fun _ => false)⟩ [])
 
 /-! ### the property's predicates, evaluated on the IMPLEMENTATION's trace -/
 
@@ -139,6 +181,9 @@ def specMove (cap : Int) (regime : String) (todos : List (List Dns.Op)) (st : Sp
     | some 'D', [rg, n] =>
       let g := (rg.drop 1).toString.toNat?.getD 99
       (⟨bump st.idx g, st.stored⟩, if keys.contains n then some "deleted-entry-present" else none)
+    | some 'X', [rg, _] =>   -- a dial whose connections were all refused returned its error (size / duplicate checks above)
+      let g := (rg.drop 1).toString.toNat?.getD 99
+      (⟨bump st.idx g, st.stored⟩, none)
     | some 'B', [_, _] => (st, none)
     | some '-', _ => (st, none)
     | some 'Z', _ => (⟨st.idx, []⟩, none)
@@ -162,9 +207,9 @@ def dnsSpec (cap : Int) (regime : String) (todos : List (List Dns.Op)) (sched tr
 def handleDns (args : List String) : Option String :=
   match args with
   | [cap, regime, ops, sched, trace] =>
-    match cap.toInt?, regimeOf regime, parseOps ops with
-    | some cp, some rg, some todos =>
-      some (dnsModel cp rg todos sched ++ "\t" ++ dnsSpec cp regime todos sched trace)
+    match cap.toInt?, regimeOf regime, parseOpsD ops with
+    | some cp, some rg, some todosD =>
+      some (dnsModel cp rg todosD sched ++ "\t" ++ dnsSpec cp regime (todosD.map (·.map (·.1))) sched trace)
     | _, _, _ => some "bad-op"
   | _ => some "bad-op"
 
